@@ -222,6 +222,7 @@ pub fn run(run: &mut Run, args: &Args) {
     }
 
     view_strings(run, &mut rng);
+    extra_rules(run, &mut rng);
 
     let n = run.budget(2500, 60_000);
     for i in 0..n {
@@ -456,6 +457,256 @@ fn check_same(run: &mut Run, sig: &str, cols: &[(String, Ty)], schema: &Arc<Sche
             }
             run.count("oracle:row-by-row");
             run.oracle(bad.is_none(), sig, &bad.unwrap_or_default());
+        }
+    }
+}
+
+/// Rewrites outside the Lean expression language (regex -> LIKE/ILIKE/=, unwrap_cast on temporal
+/// types, `simplify_predicates` on filter conjunctions): judged by the implementation-level oracle
+/// only — input and output are evaluated physically on the same rows and must give the same column.
+fn extra_rules(run: &mut Run, rng: &mut Rng) {
+    use arrow::array::{Array, ArrayRef, BooleanArray, Int32Array, StringArray};
+    use arrow::datatypes::{DataType, TimeUnit};
+    use arrow::record_batch::RecordBatch;
+    use datafusion_common::ScalarValue;
+    use datafusion_expr::{BinaryExpr, Expr as DE, col, lit};
+    let props = datafusion_expr::execution_props::ExecutionProps::new();
+    let pctx = datafusion_expr::physical_planning_context::PhysicalPlanningContext::default();
+    let eval = |e: &DE, dfs: &DFSchema, b: &RecordBatch| -> Result<ArrayRef, String> {
+        let p = datafusion_physical_expr::create_physical_expr(e, dfs, &props, &pctx).map_err(|m| format!("plan: {m}"))?;
+        p.evaluate(b).and_then(|v| v.into_array(b.num_rows())).map_err(|m| format!("eval: {m}"))
+    };
+    let show = |a: &ArrayRef, i: usize| arrow::util::display::array_value_to_string(a, i).unwrap_or_default();
+    let simplify = |e: &DE, dfs: &Arc<DFSchema>| -> Result<DE, String> {
+        let ctx = SimplifyContext::builder().with_schema(Arc::clone(dfs)).build();
+        let e2 = e.clone();
+        match hutil::catch(std::panic::AssertUnwindSafe(move || ExprSimplifier::new(ctx).simplify(e2))) {
+            Ok(Ok(s)) => Ok(s),
+            Ok(Err(m)) => Err(format!("error {m}")),
+            Err(p) => Err(format!("panic {p}")),
+        }
+    };
+    // judge: wherever the input evaluates (whole batch), the output must be the same column
+    let judge = |run: &mut Run, kind: &str, e: &DE, s: &DE, dfs: &DFSchema, b: &RecordBatch, show_row: &dyn Fn(usize) -> String| {
+        let Ok(v0) = eval(e, dfs, b) else {
+            run.count(&format!("{kind}:input-fails"));
+            return;
+        };
+        let sig = format!("{kind} {e} => {s}");
+        match eval(s, dfs, b) {
+            Ok(v1) => {
+                let same_ty = v0.data_type() == v1.data_type();
+                let bad = (0..b.num_rows()).find(|&i| v0.is_null(i) != v1.is_null(i) || show(&v0, i) != show(&v1, i));
+                let detail = match bad {
+                    Some(i) => format!("row {} : input evaluates to {} , output to {}", show_row(i), show(&v0, i), show(&v1, i)),
+                    None => format!("type {} became {}", v0.data_type(), v1.data_type()),
+                };
+                run.oracle(bad.is_none() && same_ty, &sig, &detail);
+            }
+            Err(m) => run.oracle(false, &sig, &format!("input evaluates on all rows, output fails: {}", m.chars().take(200).collect::<String>())),
+        }
+    };
+
+    // ---- (a) regex operators with literal patterns (regex.rs)
+    let n = run.budget(400, 6000);
+    let pieces = ["a", "b", "A", "_", "%", ".", "ab", "a_b", "%b", "\\."];
+    let strs = ["", "a", "b", "A", "ab", "aXb", "a_b", "a%b", "AB", "Ab", "aab", "abb", "a.b", "_", "%", "X", "axyzb", "B", "%b", "xb", "a_", "aX", "A_B", "AxB"];
+    for _ in 0..n {
+        let mut pat = String::new();
+        let anchored_l = rng.chance(2, 3);
+        let anchored_r = rng.chance(2, 3);
+        if anchored_l {
+            pat.push('^');
+        }
+        let alt = rng.chance(1, 5);
+        if alt {
+            pat.push('(');
+        }
+        for k in 0..(1 + rng.below(3)) {
+            if alt && k > 0 {
+                pat.push('|');
+            }
+            pat.push_str(&rng.pick(&pieces).replace("\\\\", "\\"));
+        }
+        if alt {
+            pat.push(')');
+        }
+        if anchored_r {
+            pat.push('$');
+        }
+        if rng.chance(1, 8) {
+            pat = format!(".*{pat}");
+        }
+        let op = *rng.pick(&[Operator::RegexMatch, Operator::RegexIMatch, Operator::RegexNotMatch, Operator::RegexNotIMatch]);
+        let nullable = rng.chance(2, 3);
+        let schema = Arc::new(Schema::new(vec![Field::new("s", DataType::Utf8, nullable)]));
+        let dfs = Arc::new(DFSchema::try_from(schema.as_ref().clone()).unwrap());
+        let mut vals: Vec<Option<&str>> = strs.iter().map(|s| Some(*s)).collect();
+        if nullable {
+            vals.push(None);
+        }
+        let b = RecordBatch::try_new(Arc::clone(&schema), vec![Arc::new(StringArray::from(vals.clone())) as ArrayRef]).unwrap();
+        let e = DE::BinaryExpr(BinaryExpr::new(Box::new(col("s")), op, Box::new(lit(pat.as_str()))));
+        let e = if rng.chance(1, 4) { DE::Not(Box::new(e)) } else { e };
+        match simplify(&e, &dfs) {
+            Ok(s) => {
+                run.count(if s != e { "regex:changed" } else { "regex:unchanged" });
+                run.count(&format!("regex-op:{op:?}"));
+                if pat.contains('_') || pat.contains('%') {
+                    run.count("regex:pattern-with-like-wildcard");
+                }
+                judge(run, "regex-simplify", &e, &s, dfs.as_ref(), &b, &|i| format!("s={:?}", vals[i]));
+            }
+            Err(m) if m.starts_with("panic") => run.oracle(false, &format!("regex-simplify panic {e}"), &m),
+            Err(_) => run.count("regex:simplify-error"),
+        }
+    }
+
+    // ---- (b) unwrap_cast over timestamp units (unwrap_cast.rs: comparison and IN-list guards)
+    let units = [TimeUnit::Second, TimeUnit::Millisecond, TimeUnit::Microsecond, TimeUnit::Nanosecond];
+    let ts_lit = |u: TimeUnit, v: i64| match u {
+        TimeUnit::Second => ScalarValue::TimestampSecond(Some(v), None),
+        TimeUnit::Millisecond => ScalarValue::TimestampMillisecond(Some(v), None),
+        TimeUnit::Microsecond => ScalarValue::TimestampMicrosecond(Some(v), None),
+        TimeUnit::Nanosecond => ScalarValue::TimestampNanosecond(Some(v), None),
+    };
+    let n = run.budget(400, 6000);
+    for _ in 0..n {
+        let from = *rng.pick(&units);
+        let to = *rng.pick(&units);
+        let nullable = rng.chance(2, 3);
+        let schema = Arc::new(Schema::new(vec![Field::new("t", DataType::Timestamp(from, None), nullable)]));
+        let dfs = Arc::new(DFSchema::try_from(schema.as_ref().clone()).unwrap());
+        // column values around the unit boundaries: multiples and non-multiples of 1000 / 10^6
+        let base = [0i64, 1, 2, 999, 1000, 1001, 1500, 2000, 2500, 1_000_000, 1_500_000, 2_000_000, 1_000_000_000, 1_500_000_000, 2_000_000_000, -1, -1000, -1500];
+        let mut vals: Vec<Option<i64>> = base.iter().map(|v| Some(*v)).collect();
+        if nullable {
+            vals.push(None);
+        }
+        let arr: ArrayRef = match from {
+            TimeUnit::Second => Arc::new(arrow::array::TimestampSecondArray::from(vals.clone())),
+            TimeUnit::Millisecond => Arc::new(arrow::array::TimestampMillisecondArray::from(vals.clone())),
+            TimeUnit::Microsecond => Arc::new(arrow::array::TimestampMicrosecondArray::from(vals.clone())),
+            TimeUnit::Nanosecond => Arc::new(arrow::array::TimestampNanosecondArray::from(vals.clone())),
+        };
+        let b = RecordBatch::try_new(Arc::clone(&schema), vec![arr]).unwrap();
+        let used = std::cell::RefCell::new(vec![]);
+        let lv = |rng: &mut Rng| {
+            let v = *rng.pick(&[0i64, 1, 2, 1000, 1500, 2000, 1_000_000, 2_000_000, -1]);
+            used.borrow_mut().push(v);
+            ts_lit(to, v)
+        };
+        let target = DataType::Timestamp(to, None);
+        let castc = if rng.chance(1, 4) {
+            DE::TryCast(datafusion_expr::TryCast::new(Box::new(col("t")), target.clone()))
+        } else {
+            DE::Cast(datafusion_expr::Cast::new(Box::new(col("t")), target.clone()))
+        };
+        let is_try = matches!(castc, DE::TryCast(_));
+        let (e, kind) = if rng.chance(1, 2) {
+            let k = 1 + rng.below(3) as usize;
+            let list: Vec<DE> = (0..k).map(|_| DE::Literal(lv(rng), None)).collect();
+            (castc.in_list(list, rng.chance(1, 3)), if k == 1 { "in1" } else { "in" })
+        } else {
+            let op = *rng.pick(&[Operator::Eq, Operator::NotEq, Operator::Lt, Operator::LtEq, Operator::Gt, Operator::GtEq]);
+            (DE::BinaryExpr(BinaryExpr::new(Box::new(castc), op, Box::new(DE::Literal(lv(rng), None)))), "cmp")
+        };
+        let dir = if from == to { "same" } else if units.iter().position(|u| *u == to) < units.iter().position(|u| *u == from) { "narrowing" } else { "widening" };
+        match simplify(&e, &dfs) {
+            Ok(s) => {
+                run.count(&format!("tscast:{kind}:{dir}:{}", if s != e { "changed" } else { "unchanged" }));
+                // is every literal representable in the column's (coarser) unit?
+                let scale = |u: TimeUnit| match u {
+                    TimeUnit::Second => 1i64,
+                    TimeUnit::Millisecond => 1_000,
+                    TimeUnit::Microsecond => 1_000_000,
+                    TimeUnit::Nanosecond => 1_000_000_000,
+                };
+                let f = if scale(to) > scale(from) { scale(to) / scale(from) } else { 1 };
+                let exact = used.borrow().iter().all(|v| v % f == 0);
+                let k = format!("tscast-{}simplify:{dir}:{}", if is_try { "trycast-" } else { "" }, if exact { "exact-literals" } else { "inexact-literal" });
+                judge(run, &k, &e, &s, dfs.as_ref(), &b, &|i| format!("t={:?}", vals[i]));
+            }
+            Err(m) if m.starts_with("panic") => run.oracle(false, &format!("tscast-simplify panic {e}"), &m),
+            Err(_) => run.count("tscast:simplify-error"),
+        }
+    }
+
+    // ---- (c) simplify_predicates on a filter conjunction (simplify_predicates.rs): the conjunction of
+    // the outputs must keep exactly the rows the conjunction of the inputs keeps
+    let n = run.budget(600, 10_000);
+    for _ in 0..n {
+        let schema = Arc::new(Schema::new(vec![Field::new("x", DataType::Int32, true), Field::new("y", DataType::Int32, true)]));
+        let dfs = Arc::new(DFSchema::try_from(schema.as_ref().clone()).unwrap());
+        let mut xs = vec![];
+        let mut ys = vec![];
+        for x in [None, Some(3), Some(4), Some(5), Some(6), Some(7)] {
+            for y in [None, Some(4), Some(5), Some(6)] {
+                xs.push(x);
+                ys.push(y);
+            }
+        }
+        let b = RecordBatch::try_new(Arc::clone(&schema), vec![Arc::new(Int32Array::from(xs.clone())) as ArrayRef, Arc::new(Int32Array::from(ys.clone())) as ArrayRef]).unwrap();
+        let k = 2 + rng.below(4) as usize;
+        let mut preds = vec![];
+        let mut tie = false;
+        let mut seen: Vec<(bool, i32, Operator)> = vec![];
+        // a literal-on-the-left predicate sharing column and literal with another predicate: the
+        // shape of the known findings (see notes/C04.md §Findings 5)
+        let mut shape: Vec<(bool, i32, bool)> = vec![];
+        let mut commuted_equal = false;
+        for _ in 0..k {
+            let onx = rng.chance(3, 4);
+            let c = 4 + rng.below(3) as i32;
+            let op = *rng.pick(&[Operator::Lt, Operator::LtEq, Operator::Gt, Operator::GtEq, Operator::Eq, Operator::NotEq]);
+            if seen.iter().any(|(a, d, o)| *a == onx && *d == c && *o != op) {
+                tie = true;
+            }
+            seen.push((onx, c, op));
+            let column = col(if onx { "x" } else { "y" });
+            let lit_left = rng.chance(1, 5);
+            if lit_left && shape.iter().any(|(a, d, _)| *a == onx && *d == c) || !lit_left && shape.iter().any(|(a, d, l)| *a == onx && *d == c && *l) {
+                commuted_equal = true;
+            }
+            shape.push((onx, c, lit_left));
+            let p = if lit_left {
+                DE::BinaryExpr(BinaryExpr::new(Box::new(lit(c)), op.swap().unwrap_or(op), Box::new(column)))
+            } else {
+                DE::BinaryExpr(BinaryExpr::new(Box::new(column), op, Box::new(lit(c))))
+            };
+            preds.push(p);
+        }
+        run.count(if tie { "preds:equal-literal-mixed-ops" } else { "preds:other" });
+        let inp = preds.clone();
+        let out = match hutil::catch(std::panic::AssertUnwindSafe(move || datafusion_optimizer::simplify_expressions::simplify_predicates(inp))) {
+            Ok(Ok(o)) => o,
+            Ok(Err(_)) => {
+                run.count("preds:error");
+                continue;
+            }
+            Err(p) => {
+                run.oracle(false, &format!("simplify_predicates panic {preds:?}"), &p);
+                continue;
+            }
+        };
+        run.count(if out != preds { "preds:changed" } else { "preds:unchanged" });
+        let conj = |v: &[DE]| v.iter().cloned().reduce(|a, b| a.and(b)).unwrap_or_else(|| lit(true));
+        let (e0, e1) = (conj(&preds), conj(&out));
+        let sig = format!("simplify_predicates:{} {e0} => {e1}", if commuted_equal { "commuted-equal-literal" } else { "plain" });
+        run.count(if commuted_equal { "preds:commuted-equal-literal" } else { "preds:not-commuted-equal" });
+        match (eval(&e0, dfs.as_ref(), &b), eval(&e1, dfs.as_ref(), &b)) {
+            (Ok(v0), Ok(v1)) => {
+                let (v0, v1) = (v0.as_any().downcast_ref::<BooleanArray>().cloned(), v1.as_any().downcast_ref::<BooleanArray>().cloned());
+                let (Some(v0), Some(v1)) = (v0, v1) else {
+                    run.oracle(false, &sig, "non-boolean result");
+                    continue;
+                };
+                let keep = |a: &BooleanArray, i: usize| a.is_valid(i) && a.value(i);
+                let bad = (0..b.num_rows()).find(|&i| keep(&v0, i) != keep(&v1, i));
+                run.oracle(bad.is_none(), &sig, &bad.map(|i| format!("row x={:?} y={:?}: input keeps {}, output keeps {}", xs[i], ys[i], keep(&v0, i), keep(&v1, i))).unwrap_or_default());
+            }
+            (Ok(_), Err(m)) => run.oracle(false, &sig, &format!("output fails: {m}")),
+            _ => run.count("preds:input-fails"),
         }
     }
 }
